@@ -65,6 +65,11 @@ CHECKS = {
    technique="TLA+ specification of the process-state indexing rules (Processor.tla) with design invariants checked by TLC; every reachable dump description serialised by a frozen independent writer, processed by the real process_minidump and compared field by field",
    text="The statement is a case analysis; it is transcribed as a TLA+ module whose behaviours build a dump description piece by piece. TLC checks that the requesting thread is never the dump writer, that the exception's thread id is preferred over Breakpad's, and that only the requesting thread ever starts from the exception context; the harness writes each description as a real minidump (x86 and amd64 contexts, exception context located by a two-pass layout, Breakpad info, misc info, /proc status, loaded and unloaded modules) and requires the real ProcessState to match: call stacks per thread entry in order (id, name, info), requesting thread (any admissible index), the context frame 0 came from, crash address incl. 32-bit zero-extension and the >= 2 parameter gate, Windows access-violation reason classes, process id source, per-frame unloaded-module offsets, module lists.",
    note="Trusted: TLC, Processor.tla, the frozen writer vendor/vf-synth + harness/src/dumpgen.rs, projection in replay_processor.rs. Up to MaxThreads threads; crash reasons for non-Windows platforms and the large code enumerations are not judged; process times are not covered."),
+ "C19": dict(
+   level="model_checking", design_ref="DESIGN.md section 5 'C19'",
+   technique="TLA+ specification of check_for_bitflips / try_bit_flips on a bit-set address representation (BitFlip.tla) with the C19 predicate checked by TLC; one generated minidump per case processed by the real process_minidump and compared as a set",
+   text="TLC enumerates CPU x access kind x examined value x memory map for three scenarios (crash address, non-canonical address recovered from the crashing instruction, null pointer plus offset) and checks on the specification that every candidate is exactly one bit away inside the platform's range and null or in a region possibly permitting the access, and that nothing is reported for 32-bit / ARM64 / accessible / null-plus-offset cases. Each case becomes a real dump (exception record, memory-info regions incl. one ending at 2^64-1, exception context with the examined value in rbx and the bytes of `mov rax,[rbx]` at rip) and the real possible_bit_flips must equal the specified set, with all confidences in [0,1].",
+   note="Trusted: TLC, BitFlip.tla, the frozen dump writer + dumpgen.rs, replay_bitflip.rs. The float confidence formula itself is not modelled; one instruction form only; Linux maps as the memory map are not exercised here."),
 }
 
 NA_DEFAULT = "check not built yet (work in progress; DESIGN.md section 5 has the planned specification)"
